@@ -2,9 +2,9 @@
 package main
 
 import (
-	"strings"
 	"k8s.io/gengo/namer"
 	"k8s.io/gengo/types"
+	"strings"
 )
 
 func init() { register("C14", c14) }
@@ -75,6 +75,12 @@ func c14(g *Gen) {
 		c := g.c14cfg()
 		depth := 1 + g.R.Intn(4)
 		root := g.tyGen(TyOpts{Depth: depth, Interfaces: true, Funcs: true, Others: true}, 0)
+		forcedIgnored := false
+		if i%6 == 5 && len(c.ignore) > 0 && !c.ignoreNil {
+			// a type whose own NAME is one of the ignore words: those apply to directory names only
+			root = &TNode{Kind: "slice", Kids: []*TNode{{Kind: "named", Pkg: g.Pick([]string{"pkg/server/frobbing/proto", "a/apis/v1", "x/ab"}), Nm: c.ignore[g.R.Intn(len(c.ignore))]}}}
+			forcedIgnored = true
+		}
 		subs := tySubterms(root, nil)
 		// call sequence: subterms and root in random order with repeats, one namer (one memo)
 		var order []*TNode
@@ -139,6 +145,9 @@ func c14(g *Gen) {
 				outs = append(outs, list(atom(name)))
 			}
 			ins = append(ins, s.Sexp())
+		}
+		if forcedIgnored {
+			cls = append(cls, "type-named-like-an-ignore-word")
 		}
 		g.Emit("C14.names", list(c.sexp(), list(ins...)), list(outs...), cls...)
 		// determinism across fresh namers (Go randomises map iteration: interface methods)
